@@ -435,9 +435,23 @@ def fam_through_record(rng):
     vals = [L.gen_value(rng, T) for _ in range(L.toplen(rng, 0, 4))]
     lay = L.Enc(rng).encode(vals, T)
     axis = rng.randint(1, d)
+    # (sort and reducers below a top-level record array give a Record of arrays, not an array of records -- DESIGN 6.3:
+    # the per-field values are right, the container is not what the property's "every other level" describes; not driven)
     op = rng.choice(["num", "localindex", "combinations", "rpad"])
     n, repl = rng.randint(1, 3), rng.random() < 0.4
     target, clip = rng.randint(0, 4), rng.random() < 0.5
+    asc, stable = rng.random() < 0.5, rng.random() < 0.5
+    red, mask = rng.choice(["sum", "count", "max", "any", "min"]), rng.random() < 0.4
+    if op in ("sort", "reduce"):
+        # (along the innermost axis: fields with exactly one list level, axis 1)
+        subT = [("list", ("option", ("num", dt)) if rng.random() < 0.3 else ("num", dt))
+                for dt in [rng.choice(["int64", "float64", "int32", "uint8", "bool"]) for _ in keys]]
+        T = ("record", keys, subT)
+        vals = [L.gen_value(rng, T) for _ in range(L.toplen(rng, 0, 4))]
+        if "nan" in repr(vals):
+            return None
+        lay = L.Enc(rng).encode(vals, T)
+        axis = 1
 
     def one(fv):
         if op == "num":
@@ -446,14 +460,21 @@ def fam_through_record(rng):
             return R.localindex(fv, axis)
         if op == "combinations":
             return R.combinations(fv, n, repl, axis)
+        if op == "sort":
+            return R.sort(fv, axis, asc)
+        if op == "reduce":
+            return R.reduce_typed(fv, fT, axis, red, mask, False)
         return R.rpad(fv, target, axis, clip)
     try:
-        per = {kk: one([v[kk] for v in vals]) for kk in keys}
+        per = {}
+        for kk, fT in zip(keys, subT):
+            per[kk] = one([v[kk] for v in vals])
     except R.Refuse:
         return None
     ref = [{kk: per[kk][i] for kk in keys} for i in range(len(vals))]
     line = {"num": "num %d" % axis, "localindex": "localindex %d" % axis,
-            "combinations": "combinations %d %d %d" % (n, repl, axis), "rpad": "rpad %d %d %d" % (target, axis, clip)}[op]
+            "combinations": "combinations %d %d %d" % (n, repl, axis), "rpad": "rpad %d %d %d" % (target, axis, clip),
+            "sort": "sort %d %d %d" % (axis, asc, stable), "reduce": "reduce %s %d %d 0" % (red, axis, mask)}[op]
     return Case("%s %s" % (line, lay.tokens()),
                 expect_value(ref, "%s at axis=%d inside the fields of %r" % (op, axis, vals), cmp=(L.same if op == "combinations" else loose)),
                 {"value": vals, "type": T})
